@@ -62,11 +62,26 @@ func (h *Handler) HandleMessage(msg stanza.Message, r xmlstream.TokenReadEncoder
 	if err != nil {
 		return err
 	}
-	tok, err := r.Token()
-	if err != nil {
-		return err
+	// Find the first child element, skipping anything that precedes it (eg.
+	// whitespace or other character data).
+	var (
+		tok   xml.Token
+		start xml.StartElement
+	)
+	for {
+		tok, err = r.Token()
+		if err != nil {
+			return err
+		}
+		var ok bool
+		if start, ok = tok.(xml.StartElement); ok {
+			break
+		}
+		if _, ok = tok.(xml.EndElement); ok {
+			// The message has no child elements.
+			return nil
+		}
 	}
-	start := tok.(xml.StartElement)
 	var queryID string
 	for _, attr := range start.Attr {
 		if attr.Name.Local == "queryid" {
